@@ -100,6 +100,22 @@ fn mul4x4_abs(matrix: &[Float; 16], x: Float, y: Float, z: Float) -> Point3D {
     Point3D::new(err_x, err_y, err_z)
 }
 
+/// Like `mul4x4_abs`, but only for the linear part of the matrix: vectors, and errors carried
+/// by an input, do not go through the translation column.
+fn mul3x3_abs(matrix: &[Float; 16], x: Float, y: Float, z: Float) -> Point3D {
+    let err_x = (matrix[elem!(0, 0)] * x).abs()
+        + (matrix[elem!(0, 1)] * y).abs()
+        + (matrix[elem!(0, 2)] * z).abs();
+    let err_y = (matrix[elem!(1, 0)] * x).abs()
+        + (matrix[elem!(1, 1)] * y).abs()
+        + (matrix[elem!(1, 2)] * z).abs();
+    let err_z = (matrix[elem!(2, 0)] * x).abs()
+        + (matrix[elem!(2, 1)] * y).abs()
+        + (matrix[elem!(2, 2)] * z).abs();
+
+    Point3D::new(err_x, err_y, err_z)
+}
+
 /// Multiplies two 4x4 matrices, represented as `[Float; 16]`
 pub fn mul4x4(m1: &[Float; 16], m2: &[Float; 16]) -> [Float; 16] {
     let mut ret = [0.; 16];
@@ -318,7 +334,8 @@ impl Transform {
     pub fn transform_pt_with_error(&self, pt: Point3D) -> (Point3D, Point3D) {
         let ret = self.transform_pt(pt);
         let (x, y, z) = (pt.x, pt.y, pt.z);
-        let err_ret = mul4x4_abs(&self.elements, x, y, z) * gamma!(3);
+        // four terms summed left to right: the first product goes through four roundings
+        let err_ret = mul4x4_abs(&self.elements, x, y, z) * gamma!(4);
         (ret, err_ret)
     }
 
@@ -327,7 +344,8 @@ impl Transform {
     pub fn inv_transform_pt_with_error(&self, pt: Point3D) -> (Point3D, Point3D) {
         let ret = self.inv_transform_pt(pt);
         let (x, y, z) = (pt.x, pt.y, pt.z);
-        let err_ret = mul4x4_abs(&self.inv_elements, x, y, z) * gamma!(3);
+        // four terms summed left to right: the first product goes through four roundings
+        let err_ret = mul4x4_abs(&self.inv_elements, x, y, z) * gamma!(4);
         (ret, err_ret)
     }
 
@@ -338,7 +356,7 @@ impl Transform {
 
         // propagate error
         let (x, y, z) = (error.x, error.y, error.z);
-        let err1 = mul4x4_abs(&self.elements, x, y, z) * (1. + gamma!(3));
+        let err1 = mul3x3_abs(&self.elements, x, y, z) * (1. + gamma!(3));
 
         (ret, err1 + err2)
     }
@@ -354,7 +372,7 @@ impl Transform {
 
         // propagate error
         let (x, y, z) = (error.x, error.y, error.z);
-        let err1 = mul4x4_abs(&self.inv_elements, x, y, z) * (1. + gamma!(3));
+        let err1 = mul3x3_abs(&self.inv_elements, x, y, z) * (1. + gamma!(3));
 
         (ret, err1 + err2)
     }
@@ -378,7 +396,7 @@ impl Transform {
 
         // propagate error
         let (x, y, z) = (vec.x, vec.y, vec.z);
-        let err_ret = mul4x4_abs(&self.elements, x, y, z) * gamma!(3);
+        let err_ret = mul3x3_abs(&self.elements, x, y, z) * gamma!(3);
 
         (ret, err_ret)
     }
@@ -390,7 +408,7 @@ impl Transform {
 
         // propagate error
         let (x, y, z) = (vec.x, vec.y, vec.z);
-        let err_ret = mul4x4_abs(&self.inv_elements, x, y, z) * gamma!(3);
+        let err_ret = mul3x3_abs(&self.inv_elements, x, y, z) * gamma!(3);
 
         (ret, err_ret)
     }
@@ -406,7 +424,7 @@ impl Transform {
 
         // propagate error
         let (x, y, z) = (error.x, error.y, error.z);
-        let err1 = mul4x4_abs(&self.elements, x, y, z) * (1. + gamma!(3));
+        let err1 = mul3x3_abs(&self.elements, x, y, z) * (1. + gamma!(3));
 
         (ret, err1 + err2)
     }
@@ -422,7 +440,7 @@ impl Transform {
 
         // propagate error
         let (x, y, z) = (error.x, error.y, error.z);
-        let err1 = mul4x4_abs(&self.inv_elements, x, y, z) * (1. + gamma!(3));
+        let err1 = mul3x3_abs(&self.inv_elements, x, y, z) * (1. + gamma!(3));
 
         (ret, err1 + err2)
     }
